@@ -434,17 +434,19 @@ func (x *Exec) evalBinary(e *Expr, env *Env) Val {
 			var fop string
 			switch op {
 			case "+":
-				fop = "fp.add"
+				fop = "fadd"
 			case "-":
-				fop = "fp.sub"
+				fop = "fsub"
 			case "*":
-				fop = "fp.mul"
+				fop = "fmul"
 			case "/":
-				fop = "fp.div"
+				fop = "fdiv"
 			default:
 				bail("float operator %s unsupported in spec", op)
 			}
-			r := Val{K: KFP, T: sx(fop, "RNE", fa, fb)}
+			// arithmetic is an uninterpreted function of its operands (IEEE RNE in reality): proofs
+			// rely only on the code and the specification applying the same operation to the same operands
+			r := Val{K: KFP, T: sx(fmt.Sprintf("%s%d", fop, w), fa, fb)}
 			if w == 32 {
 				r.Typ = types.Typ[types.Float32]
 			}
@@ -486,6 +488,16 @@ func (x *Exec) evalBinary(e *Expr, env *Env) Val {
 			eq = x.isNil(b)
 		case b.K == KOpaque && b.T == "nil":
 			eq = x.isNil(a)
+		case (op == "==" || op == "!=") && (a.K == KFP || b.K == KFP) && !(a.K == KInt || b.K == KInt):
+			// spec-level floating-point values: structural equality (NaN equals NaN)
+			w := x.fpWidth(a)
+			if w == 0 {
+				w = x.fpWidth(b)
+			}
+			if w == 0 {
+				w = 64
+			}
+			eq = sx("=", fpTerm(a, w), fpTerm(b, w))
 		case (op == "==" || op == "!=") && (isF(a) || isF(b)) && !(a.K == KInt || b.K == KInt):
 			w := x.fpWidth(a)
 			if w == 0 {
@@ -584,6 +596,12 @@ func (x *Exec) evalCall(e *Expr, env *Env) Val {
 		return specInt(sCap(a.T))
 	case "ite":
 		as := args()
+		if as[1].K == KFP && as[2].K == KReal {
+			as[2] = Val{K: KFP, T: fpTerm(as[2], 64)}
+		}
+		if as[2].K == KFP && as[1].K == KReal {
+			as[1] = Val{K: KFP, T: fpTerm(as[1], 64)}
+		}
 		r := as[1]
 		r.T = ite(as[0].T, x.termOf(as[1]), x.termOf(as[2]))
 		if r.K == KPtr {
@@ -712,7 +730,10 @@ func (x *Exec) evalCall(e *Expr, env *Env) Val {
 		a := args()[0]
 		key, el := x.sliceHeap(a.Typ)
 		h := x.heapFor(env, key, x.P.ss.heapSort(el, true))
-		return Val{K: KOpaque, T: sx("select", h, sArr(a.T)), Typ: nil}
+		return Val{K: KArr, T: sx("select", h, sArr(a.T))}
+	case "fpconst":
+		a := args()[0]
+		return Val{K: KFP, T: fpTerm(a, 64)}
 	}
 	if sf, ok := x.P.specs.SpecFns[e.Name]; ok {
 		return x.evalSpecFn(sf, e, env)
